@@ -179,13 +179,20 @@ impl HirPartKind {
             Self::Literal(_) => Some(1),
             Self::Class { bitmap } => Some(bitmap.count_ones()),
             Self::Alts { alts } => {
-                let mut res = 1;
+                // A branch generates the product of the combinations of its parts, and the
+                // alternation the sum of what its branches generate.
+                let mut res: u32 = 0;
                 for alt in alts {
+                    let mut alt_res: u32 = 1;
                     for part in alt {
-                        res *= part.kind.combinations(max)?;
-                        if res > max {
+                        alt_res = alt_res.saturating_mul(part.kind.combinations(max)?);
+                        if alt_res > max {
                             return None;
                         }
+                    }
+                    res = res.saturating_add(alt_res);
+                    if res > max {
+                        return None;
                     }
                 }
                 Some(res)
